@@ -400,6 +400,7 @@ func prefillFanout(src sim.Source, w *world.World, set *model.Set, cfg world.Cfg
 		case 3:
 			later = []string{"/f/{p}", "/f/*{q}", "/f/*{q}/t", "/f/{p}/t"}
 		}
+		later = append(later, world.HighByteSiblings...)
 		for _, raw := range later {
 			for i, p := range pool {
 				if p.Raw == raw {
